@@ -165,7 +165,8 @@ pub fn small_program(rng: &mut Rng) -> asp::Program {
     let (preds, head_preds): (&[(&str, usize)], &[(&str, usize)]) = if rng.chance(50) {
         (&[("p", 1), ("q", 1), ("r", 0), ("s", 1)], &[("p", 1), ("q", 1), ("r", 0)])
     } else {
-        (&[("p", 0), ("q", 1), ("r", 0), ("s", 0), ("s", 1)], &[("p", 0), ("q", 1), ("r", 0)])
+        // p/1 and r/1 are body-only and share their symbol with a defined predicate
+        (&[("p", 0), ("q", 1), ("r", 0), ("s", 0), ("s", 1), ("p", 1), ("r", 1)], &[("p", 0), ("q", 1), ("r", 0)])
     };
     let c = t::PCfg { preds, head_preds, vars: &["X", "Y"], syms: &["a", "b"], arith: false, max_rules: 4, max_body: 2, choice: true, constraints: true };
     t::p_program(rng, &c)
